@@ -382,7 +382,10 @@ def run_tilde_home(ctx):
     a relative value must mean that path under the CURRENT directory (which is not the home directory here); the
     cache must live there, and a dataset already cached there must be served without a request"""
     for value, where, mon in (("~/tw-cache", "home", "c18:tilde_home"), ("tw-cache", "cwd", "c18:relative_home"),
-                              ("./var/tw-cache", "cwd", "c18:relative_home")):
+                              ("./var/tw-cache", "cwd", "c18:relative_home"),
+                              # several trailing components that do not exist yet (~/.cache/traffic-weaver on a new account)
+                              ("~/.cache/tw/cache-v1", "home", "c18:tilde_home"),
+                              ("data/sets/tw-cache", "cwd", "c18:relative_home")):
         _run_named_home(ctx, value, where, mon)
 
 
